@@ -271,6 +271,14 @@ class SpecMixin:
             return mk_bool(REPK(args[0].z) if args[0].kind == "any" else z3.BoolVal(args[0].kind == "K"))
         if f == "value_ok":
             return mk_bool(REPV(args[0].z) if args[0].kind == "any" else z3.BoolVal(args[0].kind in ("V", "none")))
+        if f == "stored":      # has a jar, an oid and a serial: a stored node
+            o = args[0].z
+            return mk_bool(z3.And(self.hget(st, "_p_jar", o) != 0, self.hget(st, "_p_oid", o) != 0,
+                                  self.hget(st, "_p_serial", o) != 0))
+        if f == "rc":
+            return mk_bool(z3.Select(st.ghost["RC"], args[0].z))
+        if f == "rc_unchanged":
+            return mk_bool(st.ghost["RC"] == ctx.pre.ghost["RC"])
         if f == "is_none":
             return mk_bool(self.same(st, args[0], NONE))
         if f == "list_eq":
